@@ -853,6 +853,27 @@ Qed.
 
 End WithCfg.
 
+(* C09: a peer's claim that a third member is dead or suspect (push/pull hearsay) never removes the
+   member: it is either ignored or starts a local suspicion; the member stays listed, no event fires *)
+Theorem hearsay_keeps_member c s rs inc n addr meta vsn r :
+  Inv c s -> lk s n = Some r -> rst r = Alive -> n <> self c -> (rs = Dead \/ rs = Suspect) ->
+  let '(s', evs) := do_merge c s rs inc n addr meta vsn in
+  evs = [] /\ view s' n = view s n.
+Proof.
+  intros HI L A Hn Hrs.
+  assert (E : do_merge c s rs inc n addr meta vsn = do_suspect c s inc n (self c)) by (destruct Hrs; subst; reflexivity).
+  rewrite E. pose proof (do_suspect_spec c s inc n (self c)) as SP.
+  destruct (do_suspect c s inc n (self c)) as [s' evs]. destruct SP as [R _].
+  assert (NL : live_timer n (timers s) = None).
+  { eapply TInv_no_live; [apply HI | exact L | rewrite A; discriminate]. }
+  destruct R as [-> -> | r0 t sA L0 Ge LT _ _ _ _ _ _ _ _ _ _ _
+                | r0 L0 Es _ _ _ _ _ _ | r0 L0 Ns Ge A0 LT L' Ev _ _ _ _].
+  - split; reflexivity.
+  - congruence.
+  - contradiction.
+  - split; [exact Ev|]. unfold view. rewrite L', L. rewrite L in L0. inversion L0; subst r0. rewrite A. reflexivity.
+Qed.
+
 (* a concrete configuration used by the non-vacuity examples (SuspicionMult 4, 1 s probe interval) *)
 Definition cfg_ex : cfg :=
   mkCfg 0 0 [1;5;2;0;0;0]%N 0 30000000000 2 4000000000 6 [24000000000;11381000000;4000000000]%Z 8 true false [] true.
